@@ -344,6 +344,33 @@ def run_c08(tier_: str) -> int:
                           {"api": api, "version": ver, "resp_from_req": walk.class_path(a), "req_from_resp": walk.class_path(b)})
         else:
             pairs += 1
+    # the pairing is a fact about the two classes: it is the same after lookups that found nothing (what those raise is C09's business)
+    top_version: dict[int, int] = {}
+    for (api, ver), d in payload.items():
+        if "request" in d:
+            k = int(d["request"].__api_key__)
+            top_version[k] = max(top_version.get(k, -1), ver)
+    for k, top in sorted(top_version.items()):
+        for fn, args in ((index.load_request_schema, (k, top + 1)), (index.load_response_schema, (k, top + 1)), (index.load_response_schema, (k, -1)),
+                         (index.load_request_schema, (k + 1000, 0))):
+            try:
+                fn(*args)
+            except Exception:  # noqa: BLE001
+                pass
+            res.count("lookups_of_nonexistent_versions_before_second_pairing_pass")
+    for (api, ver), d in sorted(payload.items()):
+        if set(d) != {"request", "response"}:
+            continue
+        rq, rs = d["request"], d["response"]
+        try:
+            ok = index.load_response_from_request(rq) is rs and index.load_request_from_response(rs) is rq
+            why = "gives other classes"
+        except Exception as exc:  # noqa: BLE001
+            ok, why = False, f"raises {exc!r}"
+        res.count("pairs_checked_again_after_misses")
+        if not ok:
+            res.violation(f"pair-after-misses:{api}:v{ver}", f"{api} v{ver}: after lookups of versions that do not exist the request/response mapping {why}",
+                          {"api": api, "version": ver})
     cold_import_race(res, 5 if tier_ == "quick" else 40)
     res.coverage["rule_branches_exercised"] = branches
     res.coverage["pairs_inverted"] = pairs
@@ -674,6 +701,12 @@ def run_c13(tier_: str) -> int:
     errs = refcodec.self_test()
     if errs:
         res.inconclusive_because("reference codec self-test failed: " + "; ".join(errs[:3]))
+    def description(cls: type) -> tuple:
+        return tuple((f.name, "<none>" if f.default is dataclasses.MISSING else repr(f.default), f.default_factory is dataclasses.MISSING,
+                      repr(f.type), repr(sorted(f.metadata.items())), f.init, f.compare, f.hash) for f in dataclasses.fields(cls))
+
+    # what every class says about itself before anything has been derived from it
+    stated = {walk.class_path(cls): description(cls) for cls in walk.classes()}
     for cls in walk.classes():
         res.count("classes")
         cp = walk.class_path(cls)
@@ -764,6 +797,16 @@ def run_c13(tier_: str) -> int:
                           {"class": cp, "error": traceback.format_exc()})
         if res.counters["classes"] % 400 == 1:
             res.sample({"class": cp, "fields": [[fs.name, fs.kind, fs.ktype, fs.nullable, fs.array, fs.tag, common.jsonable(fs.default)] for fs in spec.fields][:8]})
+    # ... and after a reader and a writer have been derived for all of them: the description is what readers and writers are derived *from*,
+    # deriving them must not rewrite it
+    for cls in walk.classes():
+        cp = walk.class_path(cls)
+        now = description(cls)
+        res.count("descriptions_compared_after_derivation")
+        if now != stated[cp]:
+            changed = [a[0] for a, b in zip(stated[cp], now) if a != b]
+            res.violation(f"description-rewritten:{cp}", f"{cp}: the field description changed while readers and writers were derived (fields {changed}): "
+                          f"{[b for a, b in zip(stated[cp], now) if a != b][:2]} was {[a for a, b in zip(stated[cp], now) if a != b][:2]}", {"class": cp, "fields": changed})
     res.coverage["table_rows_exercised"] = rows
     res.coverage["tagged_fields_checked"] = tagged
     res.coverage["exhaustive"] = True
